@@ -441,6 +441,12 @@ func decimalFromString(val string) (protoreflect.Value, error) {
 	if err != nil {
 		return protoreflect.Value{}, err
 	}
+	// The value is stored in plain (non-exponent) notation: bound the exponent
+	// (to the range of IEEE decimal128) so that a few bytes of input such as
+	// "1e50000000" cannot expand to megabytes of digits.
+	if exp := d.Exponent(); exp > 6144 || exp < -6176 {
+		return protoreflect.Value{}, fmt.Errorf("decimal exponent %d is out of range", exp)
+	}
 	msg := decimal_j5t.FromShop(d)
 	return protoreflect.ValueOfMessage(msg.ProtoReflect()), nil
 }
